@@ -5,6 +5,7 @@
   different sizes), and `balance_correction_factors` (BGV).
 -/
 import Heathcliff.Model.Scheme
+import Heathcliff.Gen.Constants
 namespace HC
 
 /-- the pairs (index into encrypted1, index into encrypted2) visited for output polynomial `i`:
@@ -140,12 +141,21 @@ def ctNegate (l : Level) (a : Ct) : R Ct := do
   let ps ← a.polys.toList.mapM (fun p => rnsNeg l p)
   pure { a with polys := ps.toArray }
 
+/-- the size check of `Ciphertext::resize_internal` (src/text.rs), reached through `Ciphertext::resize` from the three
+    multiplications with `dest_size = encrypted1_size + encrypted2_size - 1`:
+    `if (size < HE_CIPHERTEXT_SIZE_MIN && size != 0) || (size > HE_CIPHERTEXT_SIZE_MAX) { panic!("[Invalid argument] Size invalid.") }`.
+    The two limits are the regenerated constants of `Gen/Constants.lean`. -/
+def ctResizeRefuses (size : Nat) : Bool :=
+  (size < Gen.HE_CIPHERTEXT_SIZE_MIN && size != 0) || size > Gen.HE_CIPHERTEXT_SIZE_MAX
+
 /-- `ckks_multiply` (also the dyadic step of `bgv_multiply`): output polynomial i = Σ over `mulPairs` of dyadic products,
-    accumulated with modular additions -/
+    accumulated with modular additions.  As in the code, the destination is resized to n1 + n2 − 1 polynomials before anything is
+    computed, and `resize` refuses a size outside {0} ∪ [2, 16] (`ctResizeRefuses`). -/
 def ctMultiplyDyadic (l : Level) (a b : Ct) : R Ct := do
   if !a.ntt ∨ !b.ntt then .error .refused else
   let n1 := a.polys.size; let n2 := b.polys.size
   if n1 < 1 ∨ n2 < 1 then .error .refused else
+  if ctResizeRefuses (n1 + n2 - 1) then .error .refused else
   let ps ← (List.range (n1 + n2 - 1)).mapM fun i =>
     (mulPairs n1 n2 i).foldlM (fun acc p => do
       let pr ← rnsDyadic l (a.polys.getD p.1 #[]) (b.polys.getD p.2 #[])
@@ -182,6 +192,8 @@ def compsMap (ms : Array Modulus) (a : RnsPoly) (f : Nat → Modulus → R Nat) 
     `bskTables` are the NTT tables of the auxiliary base Bsk (`base_Bsk_ntt_tables`). -/
 def bfvMultiply (l : Level) (bskTables : Array NTTTables) (a b : Ct) : R Ct := do
   if a.ntt ∨ b.ntt then .error .refused else
+  -- `encrypted1.resize(.., dest_size)` comes before the lifts in the code: a size outside {0} ∪ [2, 16] is refused there
+  if ctResizeRefuses (a.polys.size + b.polys.size - 1) then .error .refused else
   let tool := l.tool
   let qMs := l.qs
   let bskMs := tool.baseBsk.base
